@@ -8,7 +8,7 @@
 (* accepted; the second words with y >= j have relative length             *)
 (* (x_m + u - j)/p1: to 2^-44.                                             *)
 (***************************************************************************)
-EXTENDS Limb14, BtpeTable, Integers, Sequences, TLC, Json, IOUtils
+EXTENDS Limb14, BtpeTable, H2peTable, Integers, Sequences, TLC, Json, IOUtils
 
 Rec == ndJsonDeserialize(IOEnv.TRACE)
 VARIABLE l
@@ -22,6 +22,11 @@ Rule == /\ Ev.res = "Ok"
              [] Ev.op = "btpe1" -> LET a == BTab[Ev.case].r1[Ev.k] IN
                                    /\ Ev.always_two_words /\ Len(Ev.cnts) = Len(a.js)
                                    /\ \A i \in 1..Len(a.js) : Near14(Ev.cnts[i], a.js[i].cnt, 64 - 44)
+             \* H2PE (Hypergeometric), region 1: the value returned for the anchor's first word is the table's, and the accepting second
+             \* words are a prefix of relative length f(y)/f(m), f the hypergeometric pmf (2^-22: the code's final test uses Stirling's ln v!)
+             [] Ev.op = "h2pe1" -> LET a == HTab[Ev.case].r1[Ev.k] IN
+                                   /\ Ev.accepted_at_zero /\ Ev.out = a.out
+                                   /\ Near14(Ev.T, a.frac, 64 - 22)
              [] OTHER -> FALSE
 
 TInit == l = 1
